@@ -105,9 +105,11 @@ def check(ctx):
                          Call(re.escape(C) + "::cancel", transitive=False), "cancel-registration:" + adt.rsplit("::", 1)[-1], "%s::subscribe" % adt, "is_canceled() is true")
         # the coroutine is published before the cancel side can reach it
         pub = Call(AO + "(store|some)|may::scheduler::Scheduler::add_timer|may::sync::atomic_option::AtomicOption::some", transitive=True)
-        pubs = ctx.an.sites(f, Call(AO + "store|" + AO + "some", transitive=False), "must")
-        if pubs:
-            ctx.order(f.id, Call(AO + "store|" + AO + "some", transitive=False), reg, "publish-before-register:" + adt.rsplit("::", 1)[-1],
+        pubs = ctx.an.sites(f, Call(AO + "store|" + AO + "some", transitive=True), "must")
+        if not pubs:
+            ctx.missing("R-SIB", f.id, "publish-before-register:" + adt.rsplit("::", 1)[-1], "no publication of the coroutine (AtomicOption store/some) found in %s" % f.id)
+        else:
+            ctx.order(f.id, Call(AO + "store|" + AO + "some", transitive=True), reg, "publish-before-register:" + adt.rsplit("::", 1)[-1],
                       "%s::subscribe publishes the coroutine before it registers with the cancel data" % adt, rule="R-SIB")
     ctx.ob("R-SIB", ES, "cancellable-count", n_cancellable >= (11 if io_cancel else 2),
            "%d cancellable event sources checked" % n_cancellable, None)
